@@ -406,11 +406,13 @@ class MultiplexIterator(Iterator[_ValueT], types.Stoppable, types.Recoverable):
     except StopIteration:
       self.maybe_stop()
       raise
-    except KeyboardInterrupt:
-      self.maybe_stop()
-      raise
     except Exception:
       logging.exception('chainable: %s', f'error iterating "{self.name}".')
+      self.maybe_stop()
+      raise
+    except BaseException:
+      # KeyboardInterrupt, SystemExit, asyncio.CancelledError, ...: the producers
+      # and the pool are released whatever ends the iteration.
       self.maybe_stop()
       raise
 
